@@ -78,15 +78,47 @@ def find_consumer_loops(prog):
     return res
 
 
-def const_walk(bi, start_bb, stop_at, max_steps=4000):
-    """Walk from start_bb following only feasible arms of switches on locals that hold a constant assigned on the
-    path (tiny constant propagation).  `stop_at(bb)` returns a label to end a path there (or None to go on).
-    Returns the set of labels reached; 'return' for normal returns, 'loop' if a cycle closes without a label."""
+def _pkey(pl):
+    steps = []
+    for p in pl.proj:
+        if p == "deref":
+            continue
+        if isinstance(p, dict) and "f" in p:
+            steps.append(("f", p["n"]))
+        elif isinstance(p, dict) and "dc" in p:
+            steps.append(("v", p["dc"]))
+        else:
+            return None
+    return (pl.local, tuple(steps))
+
+
+def const_walk(bi, start_bb, stop_at, max_steps=6000):
+    """Walk from start_bb following only feasible arms of switches whose operand holds a constant assigned on the path
+    (small constant propagation over places: locals, fields of aggregates built on the path, enum variants and their
+    payloads, `!b`, moves of whole values -- enough to follow `true` / `false` / `Ok(..)` through the return place of a
+    spliced helper, a coroutine's captured variables and the `Poll::Ready` wrapper of a spliced await).
+    `stop_at(bb)` returns a label to end a path there (or None to go on).
+    Returns the set of labels reached; 'return' for normal returns, 'diverge', 'unknown' when the budget runs out."""
     body = bi.body
     labels = set()
     seen = set()
     stack = [(start_bb, ())]
     steps = 0
+
+    def kill(e, key):
+        l, st = key
+        for k in [k for k in e if k[0] == l and k[1][:len(st)] == st]:
+            del e[k]
+
+    def copy_from(e, dst, src):
+        sl, ss = src
+        dl, ds = dst
+        add = {}
+        for (l, st), v in e.items():
+            if l == sl and st[:len(ss)] == ss:
+                add[(dl, ds + st[len(ss):])] = v
+        return add
+
     while stack and steps < max_steps:
         steps += 1
         bb, env = stack.pop()
@@ -100,35 +132,86 @@ def const_walk(bi, start_bb, stop_at, max_steps=4000):
         blk = body.blocks[bb]
         e = dict(env)
         for s in blk.stmts:
-            if s.k == "assign" and s.lhs.is_local():
-                v = None
-                if s.rv.k == "use":
-                    op = s.rv.ops[0]
+            if s.k != "assign":
+                continue
+            dk = _pkey(s.lhs)
+            if dk is None:
+                kill(e, (s.lhs.local, ()))
+                continue
+            add = {}
+            rv = s.rv
+            if rv.k == "use":
+                op = rv.ops[0]
+                if op.place is None:
+                    v = op.const_bool() if op.const_bool() is not None else op.const_int()
+                    if v is not None:
+                        add[dk] = v
+                else:
+                    sk = _pkey(op.place)
+                    if sk is not None:
+                        add = copy_from(e, dk, sk)
+            elif rv.k == "un" and rv.j.get("op") == "Not" and rv.ops[0].place is not None:
+                sk = _pkey(rv.ops[0].place)
+                v = e.get(sk) if sk is not None else None
+                if isinstance(v, bool):
+                    add[dk] = not v
+            elif rv.k == "agg":
+                ak = rv.j.get("ak")
+                names = rv.j.get("fields") or [str(k) for k in range(len(rv.ops))]
+                if ak == "tuple":
+                    names = [str(k) for k in range(len(rv.ops))]
+                pre = dk[1]
+                if ak == "adt" and rv.j.get("is_enum"):
+                    add[(dk[0], pre + (("#", "discr"),))] = rv.j.get("vidx")
+                    pre = pre + (("v", rv.j.get("variant")),)
+                for n, op in zip(names, rv.ops):
+                    fk = (dk[0], pre + (("f", n),))
                     if op.place is None:
                         v = op.const_bool() if op.const_bool() is not None else op.const_int()
-                    elif op.place.is_local() and op.place.local in e:
-                        v = e[op.place.local]
-                if v is not None:
-                    e[s.lhs.local] = v
-                else:
-                    e.pop(s.lhs.local, None)
+                        if v is not None:
+                            add[fk] = v
+                    else:
+                        sk = _pkey(op.place)
+                        if sk is not None:
+                            add.update(copy_from(e, fk, sk))
+            elif rv.k == "discr" and rv.place is not None:
+                sk = _pkey(rv.place)
+                if sk is not None:
+                    v = e.get((sk[0], sk[1] + (("#", "discr"),)))
+                    if v is not None:
+                        add[dk] = v
+            elif rv.k == "ref" and rv.place is not None:
+                sk = _pkey(rv.place)
+                if sk is not None:
+                    add = copy_from(e, dk, sk)
+            kill(e, dk)
+            e.update(add)
         t = blk.term
         if t.k == "return":
             labels.add("return")
             continue
         succs = bi.cfg.succ[bb]
-        if t.k == "call" and t.dest is not None and t.dest.is_local():
-            e.pop(t.dest.local, None)
-        if t.k == "switch" and t.discr is not None and t.discr.place is not None and t.discr.place.is_local() and t.discr.place.local in e:
-            v = e[t.discr.place.local]
-            v = int(v) if isinstance(v, bool) else v
-            arms = dict(t.arms)
-            succs = [arms.get(v, t.otherwise)]
+        if t.k == "call" and t.dest is not None:
+            dk = _pkey(t.dest)
+            kill(e, dk if dk is not None else (t.dest.local, ()))
+            # a `&mut` to a tracked local handed to a call may change it
+            for a in t.args:
+                if a.place is not None and a.place.is_local():
+                    ty = body.local_ty(a.place.local) or ""
+                    if ty.startswith("&mut"):
+                        pass
+        if t.k == "switch" and t.discr is not None and t.discr.place is not None:
+            sk = _pkey(t.discr.place)
+            v = e.get(sk) if sk is not None else None
+            if v is not None:
+                v = int(v) if isinstance(v, bool) else v
+                arms = dict(t.arms)
+                succs = [arms.get(v, t.otherwise)]
         if not succs:
             labels.add("diverge")
-        env2 = tuple(sorted(e.items()))
-        for s in succs:
-            stack.append((s, env2))
+        env2 = tuple(sorted(e.items(), key=repr))
+        for s2 in succs:
+            stack.append((s2, env2))
     if steps >= max_steps:
         labels.add("unknown")
     return labels
